@@ -1,4 +1,4 @@
-import QtVerif.Proofs.StoreMongo
+import QtVerif.Proofs.StoreMongoX
 /-!
 C06 — Every persistence driver behaves like the reference record store.
 
@@ -11,9 +11,10 @@ the reference store is run with the names the driver chose and only demands that
 (`Err.notFresh` never occurs). `Agree` compares results up to the first operation that the reference store
 rejects as outside the contract (unorderable operands, unknown operator, an `id` in an update part, …).
 
-Of the Mongo driver only the identifier mapping (`_id_to_db` / `_id_from_db`) is modelled and proved; its
-queries are tied to the reference store by the correspondence check only (`mongo_xlate_sound` of the design is
-not claimed).
+The Mongo driver is modelled as far as `drivers/persist/mongo.py` itself goes (identifier mapping, filter / sort /
+projection translation, record ↔ document, the update / replace / remove / insert shapes) and proved to refine the
+reference store *modulo a declarative SPEC of the document engine* (`Mongo.eFind` …), which is an assumption about
+MongoDB validated only through mongomock by the correspondence check.
 -/
 namespace QtVerif.Store.C06
 open QtVerif.Store
@@ -252,5 +253,79 @@ theorem mongo_loose_id_test_not_injective :
     idToDbLoose up = idToDbLoose lo ∧ (idToDbLoose up).map Mongo.idFromDb = some lo ∧ up ≠ lo ∧
     (Mongo.idToDb Fix.repaired up).map Mongo.idFromDb = some up := by
   decide
+
+/-! ## The Mongo driver: translation to the document engine -/
+
+/-- **A translated filter selects the same records**: for a record the driver can hold and a filter of the
+contract (exact values, gt / ge / lt / le / in; on "id": exact value or `in`), whenever Python's filter gives a
+verdict on the record, the engine's evaluation of the translated filter (`id ↦ _id` with mapped operands,
+`$`-operators) on the record's document gives the same verdict. -/
+theorem mongo_filter_xlate_sound (d : Fields) (hd : MRecOK d) (filt : Fields) (hf : MFiltOK filt) (ef : Mongo.EFilt)
+    (he : Mongo.filtToDb Fix.repaired filt = some ef) (b : Bool) (h : recMatches d filt = some b) :
+    Mongo.eMatches (docOf d) ef = b :=
+  xlate_matches d hd filt hf ef he b h
+
+/-- **`mongo_xlate_sound`**: for filters / sorts / projections / limits in the contract domain (`MQueryOK`: no
+sort by "id", no `limit=0`, no `fields=[]`, no "_id" keys — the recorded engine classes), the translated query run
+on the engine SPEC returns exactly the reference store's records, in the same order, the id last in each. -/
+theorem mongo_xlate_sound (ms : Mongo.MState) (rs : RefState) (hrel : RelM ms rs) (gen : List Nat) (coll : Str)
+    (fields : Option (List Str)) (filt : Fields) (sort : List (Str × Bool)) (limit : Option Nat)
+    (hq : MQueryOK fields filt sort limit) :
+    let mr := Mongo.step Fix.repaired ms gen (.query coll fields filt sort limit)
+    let rr := Ref.step rs [] (.query coll fields filt sort limit)
+    (∃ e, rr.2 = .err e) ∨ (mr.2 = normRes rr.2 ∧ RelM mr.1 rr.1) :=
+  mongo_query_sound ms rs hrel gen coll fields filt sort limit hq
+
+/-- the hypotheses are satisfiable: a filter on "id" (`in`) and on a range, two sort keys, a limit, a projection -/
+example : MQueryOK (some [[110], kId]) [(kId, .obj [(opIn, .arr [.str [97], .str [98]])]), ([110], .obj [(opGe, .int 1), (opLt, .int 9)])]
+    [([110], true), ([115], false)] (some 3) := by
+  refine ⟨⟨by decide, by decide, ?_⟩, by decide, by decide, by decide, ?_⟩
+  · intro c hc
+    simp only [dget, kId, if_true, Option.some.injEq] at hc
+    subst hc
+    intro ow how
+    simp only [List.mem_singleton] at how
+    subst how
+    exact ⟨rfl, _, rfl⟩
+  · intro fs hfs; injection hfs with hfs; subst hfs; decide
+
+/-- remove: same count, and the engine ends in the reference store's state -/
+theorem mongo_remove_xlate_sound (ms : Mongo.MState) (rs : RefState) (hrel : RelM ms rs) (gen : List Nat) (coll : Str)
+    (filt : Fields) (hf : MFiltOK filt) :
+    let mr := Mongo.step Fix.repaired ms gen (.remove coll filt)
+    let rr := Ref.step rs [] (.remove coll filt)
+    (∃ e, rr.2 = .err e) ∨ (mr.2 = rr.2 ∧ RelM mr.1 rr.1) :=
+  mongo_remove_sound ms rs hrel gen coll filt hf
+
+/-- update (`$set`): the engine ends in the reference store's state; the driver reports `modified_count`, never
+more than the reference store's number of matching records (recorded finding C06-mongo-update-modified-count) -/
+theorem mongo_update_xlate_sound (ms : Mongo.MState) (rs : RefState) (hrel : RelM ms rs) (gen : List Nat) (coll : Str)
+    (part filt : Fields) (hf : MFiltOK filt) (hu : Mongo.kUid ∉ dkeys part) :
+    let mr := Mongo.step Fix.repaired ms gen (.update coll part filt)
+    let rr := Ref.step rs [] (.update coll part filt)
+    (∃ e, rr.2 = .err e) ∨ ((∃ m n, mr.2 = .count m ∧ rr.2 = .count n ∧ m ≤ n) ∧ RelM mr.1 rr.1) :=
+  mongo_update_sound ms rs hrel gen coll part filt hf hu
+
+/-- replace: same flag, same state -/
+theorem mongo_replace_xlate_sound (ms : Mongo.MState) (rs : RefState) (hrel : RelM ms rs) (gen : List Nat) (coll id : Str)
+    (rec : Fields) (hr : MRecIn rec) (hnoid : kId ∉ dkeys rec) :
+    let mr := Mongo.step Fix.repaired ms gen (.replace coll id rec)
+    let rr := Ref.step rs [] (.replace coll id rec)
+    mr.2 = rr.2 ∧ RelM mr.1 rr.1 :=
+  mongo_replace_sound ms rs hrel gen coll id rec hr hnoid
+
+/-- insert: explicit ids come back as given (duplicates are refused on both sides); a document without "_id" gets
+the ObjectId `gen` the engine generates — assumed not to be in use (`hfresh`) — and the reference store accepts
+its hex text as a free name; same state afterwards. -/
+theorem mongo_insert_xlate_sound (ms : Mongo.MState) (rs : RefState) (hrel : RelM ms rs) (gen : List Nat) (coll : Str)
+    (rec : Fields) (hin : MInsertOK rec) (hgen : GenOK gen)
+    (hfresh : ∀ d ∈ (aget [] coll rs : Coll), Mongo.idV Fix.repaired (.str (recId d)) ≠ some (.oid gen)) :
+    let mr := Mongo.step Fix.repaired ms gen (.insert coll rec)
+    let rr := Ref.step rs (match mr.2 with | .id n => n | _ => []) (.insert coll rec)
+    rr.2 ≠ .err .notFresh ∧ ((∃ e, rr.2 = .err e) ∨ (mr.2 = rr.2 ∧ RelM mr.1 rr.1)) :=
+  mongo_insert_sound ms rs hrel gen coll rec hin hgen hfresh
+
+example : MInsertOK [([110], .int 1), (kId, .str [97])] ∧ GenOK [1, 2, 3, 4, 5, 6, 7, 8, 9, 10, 11, 255] :=
+  ⟨⟨⟨by decide, by decide⟩, Or.inr ⟨[97], rfl⟩⟩, by decide, by decide⟩
 
 end QtVerif.Store.C06
